@@ -5,6 +5,7 @@ import (
 	"os"
 	"path/filepath"
 	"strings"
+	"verif/mc/explore"
 
 	"github.com/openconfig/goyang/pkg/yang"
 	"verif/mc/dump"
@@ -36,6 +37,11 @@ func scaleCases(tier string) []scalekit.Case {
 	}
 	for _, n := range scale.Sizes(80, 513) {
 		out = append(out, scalekit.Case{Shape: "big-directory", N: n})
+	}
+	// what a prefix denotes when its import selects a revision: definitions in the module body or in
+	// a submodule of its own revision, importers that pin the old one, the new one, or nothing
+	for v := 0; v < 2*len(revDefOrders(tier)); v++ {
+		out = append(out, scalekit.Case{Shape: "revision-definitions", N: 1, V: v})
 	}
 	for k := 2; k <= maxK; k++ {
 		i := 0
@@ -136,7 +142,91 @@ func checkBigDirectory(cs scalekit.Case) scalekit.Verdict {
 	return scalekit.OK()
 }
 
+func revDefOrders(tier string) [][]int {
+	var out [][]int
+	for i, p := range explore.Perms(7) {
+		if tier == "thorough" && i%37 == 0 || i%211 == 0 {
+			out = append(out, p)
+		}
+	}
+	return out
+}
+
+func checkRevisionDefinitions(cs scalekit.Case) scalekit.Verdict {
+	inSub := cs.V%2 == 1
+	ord := revDefOrders("thorough")[(cs.V/2)%len(revDefOrders("thorough"))]
+	defs := func(typ, leaf string) string {
+		return fmt.Sprintf(` typedef t { type %s; } grouping g { leaf %s { type t; } } identity i;`, typ, leaf)
+	}
+	var files []dump.File
+	for _, r := range [][3]string{{"2020-01-01", "uint32", "gold"}, {"2021-06-06", "uint64", "gnew"}} {
+		if inSub {
+			files = append(files, dump.File{Name: "a@" + r[0] + ".yang", Text: fmt.Sprintf(`module a { namespace "urn:a"; prefix a; include as { revision-date %s; } revision %s; leaf own { type t; } }`, r[0], r[0])},
+				dump.File{Name: "as@" + r[0] + ".yang", Text: fmt.Sprintf(`submodule as { belongs-to a { prefix a; } revision %s;%s }`, r[0], defs(r[1], r[2]))})
+		} else {
+			files = append(files, dump.File{Name: "a@" + r[0] + ".yang", Text: fmt.Sprintf(`module a { namespace "urn:a"; prefix a; revision %s;%s leaf own { type t; } }`, r[0], defs(r[1], r[2]))},
+				dump.File{Name: "pad" + r[0] + ".yang", Text: fmt.Sprintf(`module pad%s { namespace "urn:pad%s"; prefix pad; }`, r[0][:4], r[0][:4])})
+		}
+	}
+	user := func(name, pin string) dump.File {
+		return dump.File{Name: name + ".yang", Text: fmt.Sprintf(`module %s { namespace "urn:%s"; prefix %s; import a { prefix p;%s } leaf l { type p:t; } typedef mine { type p:t; } leaf l2 { type mine; } container c { uses p:g; } identity d { base p:i; } leaf r { type identityref { base p:i; } } }`, name, name, name, pin)}
+	}
+	files = append(files, user("uo", " revision-date 2020-01-01;"), user("un", " revision-date 2021-06-06;"), user("uu", ""))
+	ms := yang.NewModules()
+	for _, i := range ord {
+		if err := ms.Parse(files[i].Text, files[i].Name); err != nil {
+			return scalekit.Bad("load-rejected-must-accept", "loads", files[i].Name+": "+err.Error())
+		}
+	}
+	if errs := ms.Process(); len(errs) > 0 {
+		return scalekit.Bad("spurious-errors", "no errors", dump.Errors(errs))
+	}
+	for _, u := range [][3]string{{"uo", "uint32", "gold"}, {"un", "uint64", "gnew"}, {"uu", "uint64", "gnew"}} {
+		e := yang.ToEntry(ms.Modules[u[0]])
+		for _, l := range []string{"l", "l2"} {
+			if got := yang.TypeKindToName[e.Dir[l].Type.Kind]; got != u[1] {
+				return scalekit.Bad("prefix-denotes-another-revision", fmt.Sprintf("%s/%s: %s (definitions in a submodule: %v)", u[0], l, u[1], inSub), got)
+			}
+		}
+		c := e.Dir["c"]
+		if c.Dir[u[2]] == nil || len(c.Dir) != 1 || yang.TypeKindToName[c.Dir[u[2]].Type.Kind] != u[1] {
+			return scalekit.Bad("prefix-denotes-another-revision", fmt.Sprintf("%s/c: the grouping of that revision, leaf %s of type %s", u[0], u[2], u[1]), fmt.Sprint(len(c.Dir)))
+		}
+		// the identity the base names is the one written in that revision
+		rev := "2021-06-06"
+		if u[0] == "uo" {
+			rev = "2020-01-01"
+		}
+		base := e.Dir["r"].Type.IdentityBase
+		if base == nil || yang.RootNode(base) == nil || (yang.RootNode(base).Current() != rev) {
+			got := "nil"
+			if base != nil && yang.RootNode(base) != nil {
+				got = yang.RootNode(base).Current()
+			}
+			return scalekit.Bad("prefix-denotes-another-revision", u[0]+"/r: identity i of revision "+rev, got)
+		}
+		found := false
+		for _, v := range base.Values {
+			if v.Name == "d" && yang.RootNode(v).Name == u[0] {
+				found = true
+			}
+		}
+		if !found {
+			return scalekit.Bad("identity-of-the-revision-misses-its-derivation", u[0]+":d among the values of i@"+rev, fmt.Sprint(len(base.Values)))
+		}
+	}
+	for _, r := range [][2]string{{"a@2020-01-01", "uint32"}, {"a@2021-06-06", "uint64"}, {"a", "uint64"}} {
+		if got := yang.TypeKindToName[yang.ToEntry(ms.Modules[r[0]]).Dir["own"].Type.Kind]; got != r[1] {
+			return scalekit.Bad("revision-sees-the-definitions-of-another", r[0]+"/own: "+r[1], got)
+		}
+	}
+	return scalekit.OK()
+}
+
 func checkScale(cs scalekit.Case) scalekit.Verdict {
+	if cs.Shape == "revision-definitions" {
+		return checkRevisionDefinitions(cs)
+	}
 	if cs.Shape == "big-directory" {
 		return checkBigDirectory(cs)
 	}
